@@ -24,7 +24,7 @@ MANIFEST = {
 ENTRIES = ["neighbors", "find_links", "bft", "dft_recursive", "dft_iterative", "searches", "basic_render", "plantuml",
            "pyvis", "pyvis_customizable"]
 BOUNDS = {"quick": {"vertices": 3, "links": 2}, "thorough": {"vertices": 3, "links": "2-3"}}
-TIME_BUDGET = {"quick": 420, "thorough": 3000}
+TIME_BUDGET = {"quick": 420, "thorough": 1200}
 STUBS = ["call-backs -> uninterpreted functions raising HarnessFault at a symbolic invocation index",
          "pyvis.network.Network -> validated model", "re / datetime -> executed natively on concrete arguments"]
 ASSUMPTIONS = ["call-backs do not mutate the graph themselves", "faults are Exception subclasses"]
